@@ -585,7 +585,7 @@ VEC_APPEND = {
 }
 
 
-def vec_segments(body, local):
+def vec_segments(body, local, _depth=0):
     """Symbolic content of a Vec<u8> local: [('seg', kind, expr)] in construction order.
     kind: 'bytes' (extend/to_vec of a byte view of expr) | 'push' (one element)."""
     ds = body.defs().get(local, [])
@@ -593,16 +593,16 @@ def vec_segments(body, local):
         raise FactError("byte-vector local _%d has %d definitions" % (local, len(ds)))
     segs = []
     d = ds[0]
-    hops = 0
-    while d[0] == "assign" and "use" in d[3] and hops < 3:
-        # `let mut v = make_prefix(..)` through a temporary: the vector is what that call returned
+    moved_from = None
+    if d[0] == "assign" and "use" in d[3] and _depth < 3:
+        # `let mut v = <vector built elsewhere>` (a temporary holding a call result, or the vector a spliced helper filled):
+        # what was put into the source comes first, then what is appended to v itself
         pl = d[3]["use"].get("move")
-        d2 = body.defs().get(pl["l"], []) if pl is not None and not pl["p"] else []
-        if len(d2) != 1:
-            break
-        d = d2[0]
-        hops += 1
-    if d[0] == "call":
+        if pl is not None and not pl["p"] and len(body.defs().get(pl["l"], [])) == 1:
+            moved_from = pl["l"]
+    if moved_from is not None:
+        segs = list(vec_segments(body, moved_from, _depth + 1))
+    elif d[0] == "call":
         c = d[2]
         if c.fn in ("alloc::vec::Vec::<T>::with_capacity", "alloc::vec::Vec::<T>::new"):
             pass
